@@ -326,7 +326,7 @@ func unguarded(p *core.Program, guards []*guardFrame) (map[*ssa.Function]string,
 
 func runC04(p *core.Program, r *core.Report) {
 	r.Explanation = "Decides panic CONTAINMENT for the kinds of panic whose presence is visible in the code, not the absence of all panics: (R4.1) every guard frame — a function that defers a recover — defers it as its first statement and records an error on the recovered path; (R4.2) the three dispatchers over the node kinds (walker, type checker, compiler) have a clause for every kind, so their `default: panic` is unreachable for trees of the module's kinds, including trees rewritten by visitors; (R4.3) in the unguarded region U — library functions reachable from Parse, Compile, Eval, Run, vm.Run, (*VM).Run and from the closures of the option constructors without entering a guard frame, plus the guard frames' own handlers — there is no explicit panic other than such a default, no single-value type assertion that is not dominated by a successful test of the same assertion, and (K3/K5) no operation on a reflect.Type that panics on the model — a method call on the nil type, an In/Out index outside the parameters/results, a kind-specific method on another kind, a nil type handed to reflect.FuncOf/SliceOf — for any binding of the function's type origins (results of the checker's recursion, static types of nodes, Type fields of table entries) to a universe of model types, along any path whose conditions are consistent with the binding; (R4.4) every return of an API function yields (zero, error) or (value, nil)."
-	r.NotDecided = []string{"termination (never hang)", "value-dependent run-time panics in the unguarded region other than reflect.Type preconditions: index and slice bounds of Go slices, nil dereference of other pointers, stack exhaustion on deep nesting; reflect.Type operations inside loops of helpers (the evaluator gives up on loops)", "panics raised by user visitors", "that every recorded first error is eventually returned (R4.5 not built)"}
+	r.NotDecided = []string{"termination (never hang)", "value-dependent run-time panics in the unguarded region other than reflect.Type preconditions: index and slice bounds of Go slices, nil dereference of other pointers, stack exhaustion on deep nesting; reflect.Type operations inside loops of helpers (the evaluator gives up on loops)", "panics raised by user visitors"}
 	nk, msg := eng.FindNodeKinds(p)
 	if nk == nil {
 		r.Unk("R4.2", "node kinds", "", msg)
@@ -535,6 +535,8 @@ func runC04(p *core.Program, r *core.Report) {
 			return true
 		})
 	}
+	recorderRules(p, r, "R4.5", "")
+	r.Floor("R4.5", 4)
 	r.Floor("R4.1", 3)
 	r.Floor("R4.2", 3*20)
 	r.Floor("R4.3", 3)
@@ -698,6 +700,8 @@ func assertDischarged(info *types.Info, body *ast.BlockStmt, path []ast.Node, ta
 
 func c04Controls() []core.Mutant {
 	return []core.Mutant{
+		{Name: "Parse reports success without looking at the recorded error", File: "parser/parser.go", Old: "\tif p.err != nil {\n\t\treturn nil, p.err.Bind(source)\n\t}\n", New: "", Rule: "R4.5", Construct: "parser.Parse"},
+		{Name: "Optimize ignores the error a fold recorded", File: "optimizer/optimizer.go", Old: "\t\tif fold.err != nil {\n\t\t\treturn fold.err\n\t\t}\n", New: "", Rule: "R4.5", Construct: "optimizer.Optimize"},
 		{Name: "nil test before the result-kind comparison removed", File: "checker/checker.go", Old: "if t == nil || t.Kind() != v.expect {", New: "if t.Kind() != v.expect {", Rule: "R4.3", Construct: "checker.Check/reflect.Type operations"},
 		{Name: "closure body without static type handed to reflect.FuncOf", File: "checker/checker.go", Old: "\tif t == nil {\n\t\tt = interfaceType // a closure may yield nil\n\t}\n", New: "", Rule: "R4.3", Construct: "ClosureNode/reflect.Type operations"},
 		{Name: "result count no longer tested before Out(0)", File: "checker/checker.go", Old: "\t\t\t\tfn.NumOut() == 1 &&\n", New: "", Rule: "R4.3", Construct: "FunctionNode/reflect.Type operations"},
